@@ -266,7 +266,7 @@ where
             self.flash
                 .read(
                     self.flash_range.start + offset as u32 + data0.len() as u32,
-                    &mut buffer[..F::READ_SIZE],
+                    &mut buffer[..F::WRITE_SIZE],
                 )
                 .await?;
 
